@@ -8,6 +8,8 @@ package traefikoidc
 // PKCE S256 relation, with a scriptable behaviour per call.
 
 import (
+	"compress/gzip"
+	"bytes"
 	"crypto"
 	"crypto/rand"
 	"crypto/rsa"
@@ -167,6 +169,7 @@ type vfTokenScript struct {
 	NoRefresh bool       `json:"no_refresh"`     // login: return no refresh token
 	SameToken bool       `json:"same_token"`     // refresh: return the previous ID token again
 	RefreshLen int       `json:"refresh_len,omitempty"` // length of the refresh token to issue (0: short)
+	RefreshGz  bool      `json:"refresh_gz,omitempty"`  // the refresh token issued is itself the base64 text of a gzip stream (opaque to the client, as any refresh token)
 	NonceMode string     `json:"nonce_mode,omitempty"` // "" own | other | missing
 }
 
@@ -316,6 +319,29 @@ func (p *vfProvider) newRefreshToken(n int) string {
 	return s
 }
 
+func (p *vfProvider) newRefreshTokenFor(sc *vfTokenScript) string {
+	if !sc.RefreshGz {
+		return p.newRefreshToken(sc.RefreshLen)
+	}
+	p.rtSeq++
+	n := sc.RefreshLen
+	if n < 8 {
+		n = 8
+	}
+	payload := make([]byte, n)
+	for i := range payload {
+		payload[i] = byte(p.r.next()) // incompressible payload: the token's length is about 4/3 of it
+	}
+	var b bytes.Buffer
+	zw := gzip.NewWriter(&b)
+	fmt.Fprintf(zw, "rt-%d-", p.rtSeq)
+	zw.Write(payload)
+	zw.Close()
+	s := base64.StdEncoding.EncodeToString(b.Bytes())
+	p.issuedRT[s] = true
+	return s
+}
+
 func (p *vfProvider) handleToken(w http.ResponseWriter, req *http.Request) {
 	req.ParseForm()
 	p.mu.Lock()
@@ -422,10 +448,10 @@ func (p *vfProvider) handleToken(w http.ResponseWriter, req *http.Request) {
 	rt := ""
 	if call.GrantType == "authorization_code" {
 		if !sc.NoRefresh {
-			rt = p.newRefreshToken(sc.RefreshLen)
+			rt = p.newRefreshTokenFor(sc)
 		}
 	} else if sc.Rotate {
-		rt = p.newRefreshToken(sc.RefreshLen)
+		rt = p.newRefreshTokenFor(sc)
 	}
 	if rt != "" && owner != "" {
 		p.rtOwner[rt] = owner
